@@ -690,4 +690,182 @@ theorem step_pre {fn : Nat} {aw0 : List (Nat × Nat)} {t0 : List Act} (P : Prog)
           exact ⟨Bar.of_unresA hU' hf', hU'.trace⟩
         · exact ⟨.over a (b.trans ht), b.trans ht⟩
 
+/-! ### `Bar` once a failure is held -/
+
+theorem FailD.terminated {fn : Nat} {e : Exc} {t0 : List Act} {c d : Cfg} (h : FailD fn e t0 c)
+    (hterm : terminal d.st.label = true) (htr : d.trace = c.trace) : FailD fn e t0 d :=
+  .over hterm (htr.trans h.trace)
+
+theorem deliver_faild {fn : Nat} {e : Exc} {t0 : List Act} (c : Cfg) (o : WF) (h : FailD fn e t0 c) :
+    FailD fn e t0 (deliver c o) := by
+  cases h with
+  | held wf wk aw hst hh ht => rw [deliver_heldF_noop c o fn wf wk aw e hst hh]; exact .held wf wk aw hst hh ht
+  | over hterm ht =>
+    have : deliver c o = c := by
+      obtain ⟨_, _, h3⟩ := not_live_of_terminal hterm
+      unfold deliver
+      split
+      · rename_i fn' wf' wk' aw' hst; exact absurd hst (h3 fn' wf' wk' aw')
+      · rfl
+    rw [this]; exact .over hterm ht
+
+theorem awaitableDone_faild {fn : Nat} {e : Exc} {t0 : List Act} (c : Cfg) (f : Nat) (h : FailD fn e t0 c) :
+    FailD fn e t0 (awaitableDone c f) := by
+  unfold awaitableDone
+  have hold : ∀ d : Cfg, FailD fn e t0 d → FailD fn e t0 (match d.efKeys.find? (·.1 = f), d.efs[f]? with
+      | some (_, key), some (EFut.result v) => { d with ctx := (key, v) :: d.ctx.filter (·.1 ≠ key) }
+      | _, _ => d) := by
+    intro d hd; split
+    · exact hd.quiet (QuietU.of_eq rfl rfl rfl)
+    · exact hd
+  dsimp only
+  split
+  · rename_i fn' wf wakeup aw hst
+    split
+    · exact hold c h
+    · have h1 : FailD fn e t0 { c with st := .waiting fn' wf wakeup (aw.filter (·.1 ≠ f)) } := by
+        cases h with
+        | held wf' wk' aw' hst' hh ht =>
+          rw [hst] at hst'; cases hst'
+          exact .held wf wakeup _ rfl hh ht
+        | over hterm _ => rw [hst] at hterm; simp [SObj.label, terminal, allowed] at hterm
+      split
+      · split
+        · exact deliver_faild _ _ (h1.quiet (QuietU.of_eq rfl rfl rfl))
+        · exact h1.quiet (QuietU.of_eq rfl rfl rfl)
+      · exact deliver_faild _ _ h1
+      · exact h1
+  · exact hold c h
+
+theorem step_faild {fn : Nat} {e : Exc} {t0 : List Act} (P : Prog) (c : Cfg) (ev : Ev) (hC : Coh c)
+    (h : FailD fn e t0 c) : FailD fn e t0 (step P c ev).1 := by
+  by_cases hnt : ev = .tick
+  · subst hnt; exact tickStepper_faild P c hC h
+  · by_cases hna : ∃ g, ev = .tickCb (.adone g)
+    · obtain ⟨g, rfl⟩ := hna
+      simp only [step]
+      unfold tickCb; split
+      · exact awaitableDone_faild _ g (h.quiet (QuietU.of_eq rfl rfl rfl))
+      · exact h
+    · by_cases hnr : ∃ v, ev = .resume v
+      · obtain ⟨v, rfl⟩ := hnr
+        simp only [step]
+        unfold resume; split
+        · exact deliver_faild c _ h
+        · exact h
+      · rcases step_quietU P c ev hnt (fun g hg => hna ⟨g, hg⟩) (fun v hv => hnr ⟨v, hv⟩) with q | ⟨a, b⟩
+        · exact h.quiet q
+        · exact h.terminated a b
+
+/-! ### `Bar` once a result is held -/
+
+theorem holds_awOf_nil {c : Cfg} {fn wf : Nat} {wk : Option WF} {aw : List (Nat × Nat)} {v : Option Val} (hB : InvB c)
+    (hst : c.st = .waiting fn wf wk aw) (hh : Holds c wf wk v) : aw = [] := by
+  apply (hB fn wf wk aw hst).2
+  rcases hh with g | ⟨_, g⟩
+  · left; rw [g]; rfl
+  · right; rw [g]; rfl
+
+/-- a delivery that has not reached the continuation yet leaves no done-callback scheduled -/
+theorem deliv_no_adone {fn : Nat} {v : Option Val} {t0 : List Act} {c : Cfg} (hR : Reach c) (hd : Deliv fn v t0 c)
+    (ht : c.trace = t0) (hl : terminal c.st.label = false) (g : Nat) : Cb.adone g ∉ c.ready := by
+  apply no_adone_ready hR.g hl
+  cases hd with
+  | held wf wk aw hst hh _ => rw [hst, holds_awOf_nil hR.invB hst hh]; rfl
+  | ready hst _ _ => rw [hst]; rfl
+  | over hterm _ => rw [hl] at hterm; cases hterm
+  | done extra ht' =>
+    rw [ht] at ht'
+    have := congrArg List.length ht'
+    simp at this; omega
+
+theorem step_res {fn : Nat} {aw0 : List (Nat × Nat)} {t0 : List Act} (P : Prog) (hP : AwDistinct P) (c : Cfg) (ev : Ev)
+    (hR : Reach c) (v : Option Val) (hd : Deliv fn v t0 c)
+    (hall : c.trace = t0 → terminal c.st.label = false → AllRes aw0 c) :
+    Deliv fn v t0 (step P c ev).1 ∧
+    ((step P c ev).1.trace = t0 → terminal (step P c ev).1.st.label = false → AllRes aw0 (step P c ev).1) := by
+  refine ⟨step_deliv P c ev hR.coh hd, ?_⟩
+  intro ht' hl'
+  -- nothing had been activated before, and the process was live
+  have hl : terminal c.st.label = false := by
+    cases h : terminal c.st.label with
+    | false => rfl
+    | true => rw [(step_terminal_fix P c ev h).1, h] at hl'; cases hl'
+  have ht : c.trace = t0 := by
+    obtain ⟨x, hx⟩ := (step_trext P c ev).ext
+    cases hd with
+    | held _ _ _ _ _ ht => exact ht
+    | ready _ _ ht => exact ht
+    | over _ ht => exact ht
+    | done extra hte =>
+      rw [ht', hte] at hx
+      have := congrArg List.length hx
+      simp at this; omega
+  have hA := hall ht hl
+  have hno := deliv_no_adone hR hd ht hl
+  by_cases hna : ∃ g, ev = .tickCb (.adone g)
+  · obtain ⟨g, rfl⟩ := hna
+    simp only [step]
+    rw [tickCb_noop c _ (hno g)]; exact hA
+  · have hs := step_stable P hP c ev hR (fun g hg => hna ⟨g, hg⟩)
+    intro f k hk
+    exact (hA f k hk).mono hs.1 hs.2
+
+/-! ### every event keeps `Bar` -/
+
+theorem step_bar {fn : Nat} {aw0 : List (Nat × Nat)} {t0 : List Act} (P : Prog) (hP : AwDistinct P) (c : Cfg) (ev : Ev)
+    (hR : Reach c) (hok : evOk c ev = true) (h : Bar fn aw0 t0 c) : Bar fn aw0 t0 (step P c ev).1 := by
+  cases h with
+  | pre wf aw hst he ht hf => exact (step_pre P hP c ev hR hok wf aw hst he ht hf).1
+  | res v hd hall =>
+    have := step_res P hP c ev hR v hd hall
+    exact .res v this.1 this.2
+  | failed e hf => exact .failed e (step_faild P c ev hR.coh hf)
+  | over hterm ht =>
+    exact .over (by rw [(step_terminal_fix P c ev hterm).1]; exact hterm) ((step_terminal_trace P c ev hterm).trans ht)
+
+/-- an event that logs an activation while none had been logged since the wait began: the wait had been completed with a
+result, and every awaitable of the wait is in the context -/
+theorem bar_activation {fn : Nat} {aw0 : List (Nat × Nat)} {t0 : List Act} (P : Prog) (hP : AwDistinct P) (c : Cfg) (ev : Ev)
+    (hR : Reach c) (hok : evOk c ev = true) (h : Bar fn aw0 t0 c) (ht : c.trace = t0)
+    (hact : (step P c ev).1.trace ≠ c.trace) :
+    ∃ v extra, (step P c ev).1.trace = extra ++ actOf fn v :: t0 ∧ AllRes aw0 c := by
+  cases h with
+  | pre wf aw hst he ht' hf =>
+    exact absurd ((step_pre P hP c ev hR hok wf aw hst he ht' hf).2.trans ht.symm) hact
+  | failed e hf => exact absurd ((step_faild P c ev hR.coh hf).trace.trans ht.symm) hact
+  | over hterm _ => exact absurd (step_terminal_trace P c ev hterm) hact
+  | res v hd hall =>
+    have hl : terminal c.st.label = false := by
+      cases h : terminal c.st.label with
+      | false => rfl
+      | true => exact absurd (step_terminal_trace P c ev h) hact
+    have hd' := step_deliv P c ev hR.coh hd
+    cases hd' with
+    | held _ _ _ _ _ ht' => exact absurd (ht'.trans ht.symm) hact
+    | ready _ _ ht' => exact absurd (ht'.trans ht.symm) hact
+    | over _ ht' => exact absurd (ht'.trans ht.symm) hact
+    | done extra ht' => exact ⟨v, extra, ht', hall ht hl⟩
+
+theorem run_bar {fn : Nat} {aw0 : List (Nat × Nat)} {t0 : List Act} (P : Prog) (hP : AwDistinct P) (c0 : Cfg)
+    (evs : List Ev) (hR : Reach c0) (hf : histFuelOk P c0 evs = true) (hok : histOk P c0 evs = true)
+    (h : Bar fn aw0 t0 c0) : Bar fn aw0 t0 (run P c0 evs) := by
+  induction evs generalizing c0 with
+  | nil => exact h
+  | cons e es ih =>
+    unfold histFuelOk at hf
+    unfold histOk at hok
+    rw [Bool.and_eq_true] at hf hok
+    exact ih _ (step_reach P hP c0 e hR (by intro he; subst he; exact hf.1) hok.1) hf.2 hok.2
+      (step_bar P hP c0 e hR hok.1 h)
+
+theorem run_faild {fn : Nat} {e : Exc} {t0 : List Act} (P : Prog) (c0 : Cfg) (evs : List Ev) (hC : Coh c0)
+    (hf : histFuelOk P c0 evs = true) (h : FailD fn e t0 c0) : FailD fn e t0 (run P c0 evs) := by
+  induction evs generalizing c0 with
+  | nil => exact h
+  | cons ev es ih =>
+    unfold histFuelOk at hf
+    rw [Bool.and_eq_true] at hf
+    exact ih _ (step_coh P c0 ev hC (by intro he; subst he; exact hf.1)) hf.2 (step_faild P c0 ev hC h)
+
 end PMF.B10
